@@ -2,6 +2,7 @@
 from __future__ import annotations
 
 import ast
+import re
 
 from .. import anchors as A
 from ..consteval import try_fold
@@ -311,6 +312,28 @@ def check(P: Project, R: Report) -> None:
         R.ob("R5", "callback receives progress, total, message of that notification", argtxt.split("|") == want, f"{wrel}:{cb.lineno}", f"arguments {argtxt}",
              sample=f"R5 callback({argtxt}) under {g_method} ∧ {g_token}")
         R.ob("R5", "callback invoked once per notification", sum(1 for e in st.events if e.startswith("callback:")) == 1, f"{wrel}:{cb.lineno}", "")
+    # the token test is a truthiness test in the wait (`if progress_token and …`): every token the request can go out with
+    # must pass it — the library's own uuid4 string does; a token taken over from the caller (0 and "" are legal tokens) need not
+    truthy_guard = any(tok_param in set(e.split("||", 1)[1].split("&&")) for st in called for e in st.events if e.startswith("callback:"))
+    if truthy_guard:
+        n_tok = 0
+        for st, _n in W.sout.ret:
+            for e in st.events:
+                if not e.startswith("wait:"):
+                    continue
+                b_ = dict(p_.split("=", 1) for p_ in e[len("wait:"):].split("|") if "=" in p_)
+                t_ = b_.get(tok_param)
+                if t_ is None:
+                    continue
+                o_ = W.san.origin(t_).strip("<>")
+                if o_ in ("None", ""):
+                    continue
+                n_tok += 1
+                minted = bool(re.fullmatch(r"(str\()?uuid\.uuid4\(\)(\.hex)?\)?", o_))
+                R.ob("R5", "a token the request goes out with passes the wait's truthiness test", minted or o_.startswith(("'", '"')) and len(o_) > 2, f"{srel}:{W.wait_call.lineno}",
+                     f"the wait is given the token `{o_[:70]}` and tests it with `if {tok_param} and …`: a caller's token of 0 or \"\" goes out on the wire as this request's token and is then never matched — every progress notification bearing it is skipped and the callback is never called",
+                     sample=f"R5 token handed to the wait: {o_[:50]}")
+        R.need(n_tok >= 1, "anchor: no path of send_message hands a progress token to the wait")
     # exactly once per matching notification: no iteration path that established method + token skips the callback
     all_iter = list(po.cont) + list(po.normal) + [s_ for s_, _n in po.ret]
     skipped = []
